@@ -115,15 +115,27 @@ class TxnAnalysis:
         # (the loop may sit in a module-level helper of modeling_update.py that the method hands its lists to)
         from ..astutil import nodes_through_helpers as _nth
         try:
-            nodes = _nth(fn, None, depth=2, find_function=self.pm.function_finder(self.rel))
+            nodes = _nth(fn, lambda nm: self.methods.get(nm) if nm != name else None, depth=2,
+                         find_function=self.pm.function_finder(self.rel))
         except Exception:
             nodes = list(ast.walk(fn))
         for n in nodes:
-            if isinstance(n, ast.For):
+            if isinstance(n, (ast.For, ast.While)):
                 for c in ast.walk(n):
                     if isinstance(c, ast.Call) and isinstance(c.func, ast.Attribute) \
                             and c.func.attr == "replace_in_mod_obj_container_without_recomputation":
                         return True
+        return False
+
+
+def _return_only_without_simulation(ret, init):
+    """an early `return` of the constructor that can only be taken when there is no simulation date (nothing to reset)"""
+    from ..astutil import path_conditions
+    from ..paths import path_formula, implies, parse
+    try:
+        F = path_formula(path_conditions(ret, init), init)
+        return implies(F, parse("simulation_date is None")) or implies(F, parse("self.simulation_date is None"))
+    except Exception:
         return False
 
 
@@ -237,7 +249,7 @@ def r_txn(E):
                     and _self_method_call(c) != "reset_values"] or [0])
     ok_tail = any(isinstance(st, ast.If) and "simulation_date" in norm(st.test) and st.lineno > last_mut and any(
         _self_method_call(c) == "reset_values" for c in _calls(st)) for st in init.body) and not any(
-        isinstance(n, ast.Return) for n in ast.walk(init))
+        isinstance(n, ast.Return) and not _return_only_without_simulation(n, init) for n in ast.walk(init))
     if not ok_tail:
         res.findings.append(Finding(
             "R-TXN", "ModelingUpdate.__init__ :: no final reset_values for simulations",
@@ -914,6 +926,17 @@ def r_recomp(E):
         elif isinstance(st, ast.Expr) and isinstance(st.value, ast.Call) and _self_method_call(st.value) in (
                 "apply_changes", "recompute_attributes"):
             core.append((st, f"self.{_self_method_call(st.value)}()"))
+    # a chain kept as a cached property is computed where the constructor first reads it
+    for attr in ("values_to_recompute", "mod_objs_computation_chain"):
+        if any(w == f"self.{attr}" for _, w in core):
+            continue
+        prop = T.methods.get(attr)
+        if prop is not None and any(norm(d).endswith("cached_property") for d in prop.decorator_list):
+            first = next((st for st in ast.walk(init) if isinstance(st, ast.stmt) and not isinstance(st, (ast.If, ast.Try, ast.For, ast.While, ast.With, ast.FunctionDef))
+                          and any(isinstance(x, ast.Attribute) and x.attr == attr and norm(x.value) == "self"
+                                  for x in ast.walk(st))), None)
+            if first is not None:
+                core.append((first, f"self.{attr}"))
     if len({w for _, w in core}) < 4:
         res.undecided.append(f"ModelingUpdate.__init__: core steps found: {sorted({w for _, w in core})} (4 expected)")
         return res
